@@ -196,6 +196,7 @@ where
                 rx,
                 connector,
                 Some(connection),
+                false,
                 &inner.config,
             );
         }
@@ -206,7 +207,15 @@ where
         if inner.connecting.contains(&token) {
             trace!("connection in progress elsewhere, will wait");
             connector = None;
-            Checkout::new(token, self.as_ref(), rx, connector, None, &inner.config)
+            Checkout::new(
+                token,
+                self.as_ref(),
+                rx,
+                connector,
+                None,
+                false,
+                &inner.config,
+            )
         } else {
             if multiplex {
                 // Only block new connection attempts if we can multiplex on this one.
@@ -214,7 +223,15 @@ where
                 inner.connecting.insert(token);
             }
             trace!("connecting to host");
-            Checkout::new(token, self.as_ref(), rx, connector, None, &inner.config)
+            Checkout::new(
+                token,
+                self.as_ref(),
+                rx,
+                connector,
+                None,
+                multiplex,
+                &inner.config,
+            )
         }
     }
 }
@@ -361,7 +378,10 @@ where
     B: Send + 'static,
 {
     fn push(&mut self, token: Token, mut connection: C, pool_ref: PoolRef<C, B>) {
-        self.connecting.remove(&token);
+        if connection.can_share() {
+            // The connection which multiplexed checkouts were waiting for has arrived.
+            self.connecting.remove(&token);
+        }
 
         if let Some(waiters) = self.waiting.get_mut(&token) {
             trace!(waiters=%waiters.len(), ?token, "walking waiters");
